@@ -525,3 +525,69 @@ fire("c02-inflation-other-start", "C02", ["C02.start"],
      ("x/cfeminter/keeper/keeper.go", "	if previousMinter == nil {\n		startTime = params.StartTime\n	} else {\n		startTime = *previousMinter.EndTime\n	}", "	if previousMinter == nil {\n		startTime = params.StartTime\n	} else {\n		startTime = *currentMinter.EndTime\n	}"))
 silent("c02-remainder-recomputed", "C02",
        (MINT, "	remainder := expectedAmountToMint.Sub(expectedAmountToMint.TruncateDec())", "	truncated := expectedAmountToMint.TruncateDec()\n	remainder := expectedAmountToMint.Sub(truncated)"))
+
+# ---------------- C15 ----------------
+VERSIG = "x/cfesignature/keeper/grpc_query_verify_signature.go"
+PUBL = "x/cfesignature/keeper/msg_server_publish_reference_payload_link.go"
+SIGK = "x/cfesignature/keeper/signature.go"
+fire("c15-writeonce-guard-deleted", "C15", ["C15.writeonce"],
+     (PUBL, "	if !(k.checkIfPayloadLinkExists(ctx, msg.Key)) {\n		return nil, sdkerrors.Wrap(sdkerrors.ErrInvalidRequest, \"data was found at the given key, cannot overwrite present payloadlinks\")\n	}\n", ""))
+fire("c15-writeonce-guard-inverted", "C15", ["C15.writeonce"],
+     (PUBL, "	if !(k.checkIfPayloadLinkExists(ctx, msg.Key)) {", "	if k.checkIfPayloadLinkExists(ctx, msg.Key) {"))
+fire("c15-writeonce-other-key", "C15", ["C15.writeonce"],
+     (PUBL, "	if !(k.checkIfPayloadLinkExists(ctx, msg.Key)) {", "	if !(k.checkIfPayloadLinkExists(ctx, msg.Value)) {"))
+fire("c15-delete-added", "C15", ["C15.writeonce"],
+     (SIGK, "func getStoreKeyBytes(ID string) []byte {", "func (k Keeper) RemovePayloadLink(ctx sdk.Context, key string) {\n	store := prefix.NewStore(ctx.KVStore(k.storeKey), []byte(types.PayloadLinkKey))\n	store.Delete(getStoreKeyBytes(key))\n}\n\nfunc getStoreKeyBytes(ID string) []byte {"))
+fire("c15-second-writer", "C15", ["C15.writeonce"],
+     (SIGK, "func getStoreKeyBytes(ID string) []byte {", "func (k Keeper) ReplacePayloadLink(ctx sdk.Context, key string, value string) {\n	store := prefix.NewStore(ctx.KVStore(k.storeKey), []byte(types.PayloadLinkKey))\n	store.Set(getStoreKeyBytes(key), []byte(value))\n}\n\nfunc getStoreKeyBytes(ID string) []byte {"))
+silent("c15-helper-renamed-true-meaning", "C15",
+       (PUBL, "	if !(k.checkIfPayloadLinkExists(ctx, msg.Key)) {", "	if free := k.checkIfPayloadLinkExists(ctx, msg.Key); !free {"))
+fire("c15-payload-swapped", "C15", ["C15.payload"],
+     (VERSIG, "util.CalculateHash(util.HashConcat(targetAccAddress, referenceId, referencePayloadLink))", "util.CalculateHash(util.HashConcat(referenceId, targetAccAddress, referencePayloadLink))"))
+fire("c15-payload-without-link", "C15", ["C15.payload"],
+     (VERSIG, "util.CalculateHash(util.HashConcat(targetAccAddress, referenceId, referencePayloadLink))", "util.CalculateHash(util.HashConcat(targetAccAddress, referenceId, referenceId+referencePayloadLink[:0]))"))
+fire("c15-args-cert-as-signature", "C15", ["C15.args"],
+     (VERSIG, "signaturePayload, signature.Signature, signature.Algorithm, signature.Certificate)", "signaturePayload, signature.Certificate, signature.Algorithm, signature.Certificate)"))
+fire("c15-verdict-ignored", "C15", ["C15.verdict"],
+     (VERSIG, "	if validationError != nil {\n		// it is safe to forward local errors\n		return nil, validationError\n	}\n", "	_ = validationError\n"))
+fire("c15-verifier-always-ok", "C15", ["C15.verdict"],
+     (VERSIG, "		return sdkerrors.Wrap(sdkerrors.ErrInvalidRequest, \"signature validation failed\")\n	}", "		ctxLog := sdkerrors.Wrap(sdkerrors.ErrInvalidRequest, \"signature validation failed\")\n		_ = ctxLog\n	}"))
+fire("c15-f2-reintroduced", "C15", ["C15.fields"],
+     (VERSIG, "Certificate: signature.Certificate,", "Certificate: signature.Signature,"))
+fire("c15-fields-swapped", "C15", ["C15.fields"],
+     (VERSIG, "Signature: signature.Signature, Algorithm: signature.Algorithm,", "Signature: signature.Algorithm, Algorithm: signature.Signature,"))
+silent("c15-args-bound-first", "C15",
+       (VERSIG, "	validationError := k.isValidSignature(goCtx, targetAccAddress, signaturePayload, signature.Signature, signature.Algorithm, signature.Certificate)", "	sig, alg, cert := signature.Signature, signature.Algorithm, signature.Certificate\n	validationError := k.isValidSignature(goCtx, targetAccAddress, signaturePayload, sig, alg, cert)"))
+
+# ---------------- C19 ----------------
+fire("c19-start-guard-dropped", "C19", ["C19.zero"],
+     (MINTYPES, "	if startTime.After(blockTime) {\n		return sdk.ZeroDec()\n	}\n	minterConfig, _ := m.GetMinterConfig()\n	return minterConfig.CalculateInflation", "	minterConfig, _ := m.GetMinterConfig()\n	return minterConfig.CalculateInflation"))
+fire("c19-f19-reintroduced", "C19", ["C19.zero"],
+     (MINTYPES, "	if endTime != nil && (blockTime.Equal(*endTime) || blockTime.After(*endTime)) {\n		return sdk.ZeroDec()\n	}\n\n	periodDuration", "	periodDuration"))
+fire("c19-supply-guard-dropped", "C19", ["C19.guard"],
+     (MINTYPES, "func (m *LinearMinting) CalculateInflation(totalSupply math.Int, minterStart time.Time, endTime *time.Time, blockTime time.Time) sdk.Dec {\n	if totalSupply.LTE(sdk.ZeroInt()) {\n		return sdk.ZeroDec()\n	}\n", "func (m *LinearMinting) CalculateInflation(totalSupply math.Int, minterStart time.Time, endTime *time.Time, blockTime time.Time) sdk.Dec {\n"))
+fire("c19-divide-by-minted", "C19", ["C19.operands"],
+     ("x/cfeminter/keeper/keeper.go", "	result := currentMinter.CalculateInflation(supply.Amount, startTime, ctx.BlockHeader().Time)", "	result := currentMinter.CalculateInflation(minterState.AmountMinted, startTime, ctx.BlockHeader().Time)"))
+fire("c19-year-360", "C19", ["C19.operands"],
+     (MINTYPES, "const year = time.Hour * 24 * 365", "const year = time.Hour * 24 * 360"))
+silent("c19-end-check-not-before", "C19",
+       (MINTYPES, "	if endTime != nil && (blockTime.Equal(*endTime) || blockTime.After(*endTime)) {\n		return sdk.ZeroDec()\n	}\n\n	periodDuration", "	if endTime != nil && !blockTime.Before(*endTime) {\n		return sdk.ZeroDec()\n	}\n\n	periodDuration"))
+
+# ---------------- C11 ----------------
+ABCI_D = "x/cfedistributor/abci.go"
+fire("c11-f18-reintroduced", "C11", ["C11.inventory"],
+     (DISTYPES, "	for _, accountId := range accountIds {\n		if lastOccurrence[accountId] != Source {", "	for accountId := range lastOccurrence {\n		if lastOccurrence[accountId] != Source {"))
+fire("c11-map-iteration-in-beginblock", "C11", ["C11.inventory"],
+     (ABCI_D, "	k.SendCoinsFromStates(ctx, states)", "	byKey := map[string]types.State{}\n	for _, s := range states {\n		byKey[s.GetStateKey()] = s\n	}\n	states = states[:0]\n	for _, s := range byKey {\n		states = append(states, s)\n	}\n	k.SendCoinsFromStates(ctx, states)"))
+fire("c11-wallclock-into-state", "C11", ["C11.inventory"],
+     (MINT, "	minterState.LastMintBlockTime = ctx.BlockTime()\n	minterState.RemainderToMint = remainder", "	minterState.LastMintBlockTime = time.Now()\n	minterState.RemainderToMint = remainder"))
+fire("c11-rand-in-handler", "C11", ["C11.inventory"],
+     ("x/cfevesting/keeper/msg_server_withdraw_all_available.go", "	ctx := sdk.UnwrapSDKContext(goCtx)\n", "	ctx := sdk.UnwrapSDKContext(goCtx)\n	if rand.Intn(1000) == 0 {\n		return nil, nil\n	}\n"),
+     ("x/cfevesting/keeper/msg_server_withdraw_all_available.go", "import (\n	\"context\"\n", "import (\n	\"context\"\n	\"math/rand\"\n"))
+fire("c11-package-var-in-handler", "C11", ["C11.inventory"],
+     ("x/cfevesting/keeper/msg_server_withdraw_all_available.go", "	ctx := sdk.UnwrapSDKContext(goCtx)\n", "	ctx := sdk.UnwrapSDKContext(goCtx)\n	withdrawCalls++\n"),
+     ("x/cfevesting/keeper/msg_server_withdraw_all_available.go", "func (k msgServer) WithdrawAllAvailable(", "var withdrawCalls int\n\nfunc (k msgServer) WithdrawAllAvailable("))
+fire("c11-goroutine-in-beginblock", "C11", ["C11.inventory"],
+     (ABCI_D, "	k.SendCoinsFromStates(ctx, states)", "	done := make(chan struct{})\n	go func() { k.SendCoinsFromStates(ctx, states); close(done) }()\n	<-done"))
+silent("c11-membership-map", "C11",
+       (ABCI_D, "	k.SendCoinsFromStates(ctx, states)", "	seen := map[string]bool{}\n	for _, s := range states {\n		seen[s.GetStateKey()] = true\n	}\n	if len(seen) <= len(states) {\n		k.SendCoinsFromStates(ctx, states)\n	}"))
